@@ -16,7 +16,7 @@ RULE = ("histories = generated client programs of 3-16 operations over {start, e
         "instruction-level stall sweep parking it at one bytecode instruction (inside a source line). "
         "distinct = distinct interleaving signatures (sequence of (thread role, event kind) in the boundary log); "
         "non-trivial = at least one task body executed.")
-RULE += (" " + "Also directed program families: start()/restart under load, lifecycle calls under a burst of submissions, refused thread creations (judged on the fault-free suffix), stop() with a full bounded queue, a producer blocked on the full bounded queue, and the retirement window (tasks separated by idle periods of about the pool's timeout while a worker is parked at each of its lines). Frozen states are confirmed as described in vf/steady.py.")
+RULE += (" " + "Also directed program families: start()/restart under load, lifecycle calls under a burst of submissions, refused thread creations (judged on the fault-free suffix), stop() with a full bounded queue, a producer blocked on the full bounded queue, submissions landing inside start() (the controller parked at each of its lines while another thread submits its only tasks), and the retirement window (tasks separated by idle periods of about the pool's timeout while a worker is parked at each of its lines). Frozen states are confirmed as described in vf/steady.py.")
 ASSUMPTIONS = [
     "a task is optional (may legitimately never run) iff an effective stop() returned, or is in progress, after its "
     "enqueue was called and the task had not started before that stop was called",
